@@ -76,6 +76,7 @@ func init() {
 
 func runC01(c *Ctx) {
 	procStateFresh(c, "S1-per-packet-state")
+	c01ConfiguredKeyIsTheMacKey(c)
 	c01Core(c, "")
 }
 
